@@ -7,10 +7,14 @@ mkdir -p /tmp/lead
 git -C /repo worktree add -f --detach "$d" HEAD >/dev/null 2>&1
 cp /repo/biom/*.so "$d/biom/" 2>/dev/null
 cd "$d"
-/venv/bin/python "$src/demo.py" >/tmp/lead/demo_before.$$ 2>&1; rc_before=$?
+# demos locate the library either through the current directory or through the worktree they sit in:
+# run a copy placed inside the scratch worktree, from its root
+mkdir -p "$d/_seed_out/x"; cp "$src/demo.py" "$d/_seed_out/x/demo.py"
+export BIOM_ROOT="$d"
+/venv/bin/python "$d/_seed_out/x/demo.py" >/tmp/lead/demo_before.$$ 2>&1; rc_before=$?
 if ! git apply "$src/patch.diff"; then echo "REJECT $sid: patch does not apply"; cd /; git -C /repo worktree remove --force "$d"; exit 1; fi
 suite=$(/venv/bin/python -m pytest -q -p no:cacheprovider biom/tests 2>&1 | tail -1)
-/venv/bin/python "$src/demo.py" >/tmp/lead/demo_after.$$ 2>&1; rc_after=$?
+/venv/bin/python "$d/_seed_out/x/demo.py" >/tmp/lead/demo_after.$$ 2>&1; rc_after=$?
 cd /; git -C /repo worktree remove --force "$d"
 echo "$sid: demo before rc=$rc_before, suite with patch: $suite, demo after rc=$rc_after"
 case "$suite" in *"377 passed"*) ok_suite=1;; *) ok_suite=0;; esac
@@ -29,6 +33,6 @@ json.dump({"seed_id": sid, "property": prop, "needs_to_manifest": needs,
 PY
   echo "KEPT $sid"
 else
-  echo "REJECT $sid"; tail -3 /tmp/lead/demo_before.$$ /tmp/lead/demo_after.$$
+  echo "REJECT $sid"; tail -n 3 /tmp/lead/demo_before.$$ /tmp/lead/demo_after.$$
 fi
 rm -f /tmp/lead/demo_before.$$ /tmp/lead/demo_after.$$
